@@ -692,10 +692,20 @@ pub mod forwarder {
 
     const TIMEOUT_MS: u64 = 400;
 
+    fn default_ttl() -> u8 {
+        64
+    }
+
     #[derive(Serialize, Deserialize, Debug, Clone, PartialEq, Eq)]
     pub enum Op {
-        /// client c pings 127.0.0.<host> (answered by the kernel)
-        Echo { c: u8, host: u8, size: u16 },
+        /// client c pings 127.0.0.<host> (answered by the kernel) with this TTL
+        Echo {
+            c: u8,
+            host: u8,
+            size: u16,
+            #[serde(default = "default_ttl")]
+            ttl: u8,
+        },
         /// client c pings a silent address (no reply ever comes)
         EchoSilent { c: u8, size: u16 },
         /// an ICMP error (3 = unreachable, 11 = time exceeded) about the n-th request sent so far,
@@ -838,6 +848,35 @@ pub mod forwarder {
         at: Instant,
         /// the request as it went on the wire (ICMP part), once sniffed
         wire: Option<Vec<u8>>,
+        size: u16,
+        ttl: u8,
+    }
+
+    /// Take the echo requests sniffed so far and check each against what its client asked for
+    fn absorb(raw: &Raw, sent: &mut [Sent]) -> Verdict {
+        for p in raw.drain() {
+            if p.len() < 28 || p[0] >> 4 != 4 || p[20] != 8 {
+                continue;
+            }
+            let (pid, pseq) = (u16::from_be_bytes([p[24], p[25]]), u16::from_be_bytes([p[26], p[27]]));
+            let Some(s) = sent.iter_mut().find(|s| s.id == pid && s.seq == pseq) else { continue };
+            let what = format!("echo request id {:#06x} seq {} to {} (asked: ttl {}, {} data bytes)", s.id, s.seq, s.dest, s.ttl, s.size);
+            ensure!(s.wire.is_none(), "icmp:request-emitted-twice", "{}: seen on the wire a second time", what);
+            let icmp_part = &p[20..];
+            ensure!(p[8] == s.ttl, "icmp:request-ttl-differs", "{}: left with TTL {}", what, p[8]);
+            ensure!(p[16..20] == s.dest.octets(), "icmp:request-to-wrong-address", "{}: sent to {:?}", what, &p[16..20]);
+            ensure!(icmp_part[1] == 0, "icmp:request-malformed", "{}: code {}", what, icmp_part[1]);
+            ensure!(
+                icmp_part.len() == 8 + s.size as usize,
+                "icmp:request-size-differs",
+                "{}: {} data bytes on the wire",
+                what,
+                icmp_part.len() - 8
+            );
+            ensure!(icmp::verifies(icmp_part), "icmp:request-checksum-wrong", "{}: the Internet checksum does not verify", what);
+            s.wire = Some(icmp_part.to_vec());
+        }
+        Ok(())
     }
 
     async fn run_history(c: &Case, nonce: u16) -> Verdict {
@@ -872,16 +911,16 @@ pub mod forwarder {
         for (step, op) in c.ops.iter().enumerate() {
             match op {
                 Op::Echo { .. } | Op::EchoSilent { .. } => {
-                    let (ci, dest, size, silent) = match op {
-                        Op::Echo { c, host, size } => (*c as usize % 3, Ipv4Addr::new(127, 0, 0, 1 + host % 250), *size % 1200, false),
-                        Op::EchoSilent { c, size } => (*c as usize % 3, Ipv4Addr::new(192, 0, 2, 77), *size % 1200, true),
+                    let (ci, dest, size, silent, ttl) = match op {
+                        Op::Echo { c, host, size, ttl } => (*c as usize % 3, Ipv4Addr::new(127, 0, 0, 1 + host % 250), *size % 1200, false, (*ttl).max(1)),
+                        Op::EchoSilent { c, size } => (*c as usize % 3, Ipv4Addr::new(192, 0, 2, 77), *size % 1200, true, 64),
                         _ => unreachable!(),
                     };
                     seq = seq.wrapping_add(1);
                     let id = id_base ^ (ci as u16);
-                    let rec = icmp::encode_request(&icmp::Request { id, destination: IpAddr::V4(dest), seq, ttl: 64, data_size: size });
+                    let rec = icmp::encode_request(&icmp::Request { id, destination: IpAddr::V4(dest), seq, ttl, data_size: size });
                     clients[ci].send.send_data(Bytes::from(rec), false).map_err(|e| herr(e.to_string()))?;
-                    sent.push(Sent { client: ci, id, seq, dest, silent, at: Instant::now(), wire: None });
+                    sent.push(Sent { client: ci, id, seq, dest, silent, at: Instant::now(), wire: None, size, ttl });
                     if !silent {
                         expected[ci].push(Reply { id, source: IpAddr::V4(dest), type_id: 0, code: 0, seq });
                     }
@@ -891,15 +930,7 @@ pub mod forwarder {
                         continue;
                     }
                     let k = idx((*n as u16) << 8, sent.len());
-                    // sniff the wire form of the requests we have not seen yet
-                    for p in raw.drain() {
-                        if p.len() >= 28 && p[20] == 8 {
-                            let (pid, pseq) = (u16::from_be_bytes([p[24], p[25]]), u16::from_be_bytes([p[26], p[27]]));
-                            if let Some(s) = sent.iter_mut().find(|s| s.id == pid && s.seq == pseq && s.wire.is_none()) {
-                                s.wire = Some(p[20..].to_vec());
-                            }
-                        }
-                    }
+                    absorb(&raw, &mut sent)?;
                     let s = sent[k].clone();
                     let Some(wire) = s.wire.clone() else { continue };
                     let keep = if *quote == 255 { wire.len() } else { (8 + *quote as usize).min(wire.len()) };
@@ -949,6 +980,7 @@ pub mod forwarder {
                 }
             }
             tokio::time::sleep(Duration::from_millis(15)).await;
+            absorb(&raw, &mut sent)?;
             for (ci, cl) in clients.iter_mut().enumerate() {
                 while let Ok(r) = cl.rx.try_recv() {
                     got[ci].push(r);
@@ -979,6 +1011,18 @@ pub mod forwarder {
             }
         }
         tokio::time::sleep(Duration::from_millis(60)).await;
+        absorb(&raw, &mut sent)?;
+        for s in &sent {
+            ensure!(
+                s.silent || s.wire.is_some(),
+                "icmp:request-not-emitted",
+                "client {} asked for an echo (id {:#06x} seq {}) to {}: no such packet left the endpoint",
+                s.client,
+                s.id,
+                s.seq,
+                s.dest
+            );
+        }
         for (ci, cl) in clients.iter_mut().enumerate() {
             while let Ok(r) = cl.rx.try_recv() {
                 got[ci].push(r);
@@ -1017,11 +1061,12 @@ pub mod forwarder {
             "forwarder-histories"
         }
         fn rule(&self) -> String {
-            "three clients with CONNECT _icmp streams (HTTP/2 in memory) on one real IcmpForwarder bound to lo (raw ICMP sockets, kernel echo replies); histories of 3-12 operations: echo to 127.0.0.x, echo to a silent address, forged destination-unreachable / time-exceeded quoting the n-th request (sniffed from the wire) with 0-200 payload bytes or completely, errors about a request nobody sent, truncated errors, forged (possibly late) echo replies, waiting past the request time-out (400 ms); oracle: every reply / error about a pending request reaches exactly the requesting client with the responder's address, type, code, id and seq, once per packet; nothing else is reported to anybody; the waiter table is empty after the time-out; non-trivial = two clients with pending requests at the same time".into()
+            "three clients with CONNECT _icmp streams (HTTP/2 in memory) on one real IcmpForwarder bound to lo (raw ICMP sockets, kernel echo replies); histories of 3-12 operations: echo to 127.0.0.x with a generated TTL (64, 1, 255, any) and data size, echo to a silent address, forged destination-unreachable / time-exceeded quoting the n-th request (sniffed from the wire) with 0-200 payload bytes or completely, errors about a request nobody sent, truncated errors, forged (possibly late) echo replies, waiting past the request time-out (400 ms); oracle: every request to 127.0.0.x is seen on the wire exactly once with the requested TTL, destination, identifier, sequence number and data size and a verifying checksum; every reply / error about a pending request reaches exactly the requesting client with the responder's address, type, code, id and seq, once per packet; nothing else is reported to anybody; the waiter table is empty after the time-out; non-trivial = two clients with pending requests at the same time".into()
         }
         fn strategy(&self, _: Tier) -> BoxedStrategy<Case> {
             let op = prop_oneof![
-                5 => (0u8..3, any::<u8>(), prop_oneof![Just(0u16), 1u16..64, 64u16..1200]).prop_map(|(c, host, size)| Op::Echo { c, host, size }),
+                5 => (0u8..3, any::<u8>(), prop_oneof![Just(0u16), 1u16..64, 64u16..1200], prop_oneof![3 => Just(64u8), 1 => Just(1u8), 1 => Just(255u8), 2 => 1u8..=255])
+                    .prop_map(|(c, host, size, ttl)| Op::Echo { c, host, size, ttl }),
                 3 => (0u8..3, prop_oneof![Just(0u16), 1u16..64, 64u16..1200]).prop_map(|(c, size)| Op::EchoSilent { c, size }),
                 5 => (any::<u8>(), any::<u8>(), any::<u8>(), prop_oneof![3 => Just(0u8), 2 => 1u8..64, 2 => Just(255u8), 1 => 64u8..200]).prop_map(|(n, type_id, code, quote)| Op::ErrorAbout { n, type_id, code, quote }),
                 1 => any::<u8>().prop_map(|type_id| Op::ErrorAboutUnknown { type_id }),
@@ -1054,10 +1099,14 @@ pub mod forwarder {
             if c.ops.contains(&Op::WaitTimeout) {
                 v.push("timeout");
             }
+            let ttls: Vec<u8> = c.ops.iter().filter_map(|o| if let Op::Echo { ttl, .. } = o { Some(*ttl) } else { None }).collect();
+            if ttls.windows(2).any(|w| w[0] != w[1]) {
+                v.push("ttl-changes-between-requests");
+            }
             v
         }
         fn required_classes(&self) -> Vec<&'static str> {
-            vec!["nontrivial", "truncated-quote", "timeout"]
+            vec!["nontrivial", "truncated-quote", "timeout", "ttl-changes-between-requests"]
         }
         fn check(&self, c: &Case) -> Verdict {
             let c = c.clone();
